@@ -80,6 +80,21 @@ CHECKS.update({
     },
 })
 
+CHECKS.update({
+    "C01": {
+        "technique": "static analysis: abstract evaluation of the compare match over its finite domain; abstract interpretation of the payload writer's THIR into the emitted XML tree for every abstract case (old x new x family), checked against the element requirements extracted from the agent's own readers",
+        "text": "Decides structural necessary conditions of convergence: the complete compare decision table with old/new wiring; for all 12 abstract (old,new,family) cases the emitted term tree is readable by the agent's own Term/TermFrom/RouteFilter readers, deletes a term exactly when the family becomes empty, deletes old\\new and adds new\\old (HashSet::difference), and the envelope order. NOT decided: set contents and prefix arithmetic, Junos merge behaviour, equality after read-back for concrete values, behaviour over run sequences (the paper argument (old\\(old\\new)) U (new\\old) = new is not machine-checked).",
+        "note": "Junos normalisation prefix-length-range <-> choice-ident/choice-value and merge semantics are assumptions.",
+        "design_ref": "DESIGN.md §3 C01",
+    },
+    "C02": {
+        "technique": "static analysis: the same THIR abstract interpretation of the payload writer; structural predicates on the emitted tree per abstract case; who-may-send and origin of the opened database",
+        "text": "Decides, for each update on its own and every abstract case: every accept sits in a term with from/family of the same family and only when the new set is non-empty; non-deleted route-filters come only from the evaluated set, deleted ones from old\\new; an emptied family is removed as a whole term; Update always ends in then/reject; element names are literals from the policy-statement vocabulary; only load_config on the configured ephemeral instance sends it. NOT decided: that the evaluated set is right (C11), Junos merge semantics, accept-set of a concrete policy.",
+        "note": "Same assumptions as C01.",
+        "design_ref": "DESIGN.md §3 C02",
+    },
+})
+
 NOT_APPLICABLE = {
     "C11": "Equality between a computed prefix-range set and the RPSL denotation over arbitrary IRR data: run-time values in three external crates (rpsl, irrc, generic-ip); no structural necessary condition in this repository's source that is not a frozen copy of today's query plan.",
 }
